@@ -21,7 +21,7 @@ var (
 	profC05 = sim.Profile{Name: "c05", Steps: 140, CanaryProb: 1, Hostile: 2.5, Churn: 1, Edits: 2.5, Holds: 1, Commands: 1.5, DupPods: 0.3, Affinity: -1, MaxNodes: 6}
 	profC15 = sim.Profile{Name: "c15", Steps: 120, CanaryProb: 1, Hostile: 1, Churn: 4, Edits: 2.5, Holds: 0.3, Commands: 0.5, DupPods: 0.3, Affinity: -1, MaxNodes: 9}
 	profC10 = sim.Profile{Name: "c10", ReadFaults: 0.05, Overrides: 4, Steps: 150, CanaryProb: 0.4, Hostile: 1, Churn: 2, Edits: 1.5, Holds: 0.3, Commands: 0.3, DupPods: 0.5, Affinity: -1, MaxNodes: 8, Converge: true}
-	profC19 = sim.Profile{Name: "c19", EDSFaults: 0.08, Steps: 140, CanaryProb: 1, Hostile: 1.5, Churn: 0.7, Edits: 1.5, Holds: 0.8, Commands: 5, DupPods: 0.2, Affinity: -1, MaxNodes: 5, Converge: true}
+	profC19 = sim.Profile{Name: "c19", EDSFaults: 0.15, Steps: 140, CanaryProb: 1, Hostile: 1.5, Churn: 0.7, Edits: 1.5, Holds: 0.8, Commands: 5, DupPods: 0.2, Affinity: -1, MaxNodes: 5, Converge: true}
 	profC16 = sim.Profile{Name: "c16", Steps: 130, CanaryProb: 0.8, Hostile: 2, Churn: 1.5, Edits: 6, Holds: 0.8, Commands: 1, DupPods: 0.5, Affinity: -1, MaxNodes: 5, Overrides: 1}
 	profC02 = sim.Profile{Name: "c02", Steps: 80, CanaryProb: 0.5, Hostile: 1.5, Churn: 1.5, Edits: 1.5, Holds: 0.7, Commands: 0.5, DupPods: 0.5, Affinity: -1, MaxNodes: 6, Converge: true, OldDS: 0.15}
 )
